@@ -14,6 +14,7 @@ Next == i < Len(Cases) /\ i' = i + 1 /\ UNCHANGED <<g, st, om, mbsnap, mbseen>>
 Verdict(c) ==
   CASE c.fn = "graph"   -> GraphVerdict(c)
     [] c.fn = "run"     -> RunVerdict(c)
+    [] c.fn = "records" -> RecordsVerdict(c)
     [] c.fn = "blocks"  -> BlocksVerdict(c)
     [] c.fn = "phases"  -> PhasesVerdict(c)
     [] c.fn = "rewrite" -> RewriteVerdict(c)
